@@ -542,7 +542,7 @@ def step_shapes(tier):
         for local in (False, True):
             for slots in own_slot_lists(maxlen, local):
                 for op in (ops_local if local else ops_global):
-                    for pj in (("custom", "derived") if op[0] == "add_pulse" and op[1] != "no-delay" else ("derived",)):
+                    for pj in ("custom", "derived"):
                         shapes.append(dict(
                             own=dict(clock=clock, local=local, slots=slots, mod=True, pj=pj,
                                      targets_a=["q0"], targets_b=["q1"]),
@@ -554,10 +554,11 @@ def two_channel_shapes(tier):
     quick = tier == "quick"
     shapes = []
     other_lists = [["pulseA"], ["pulseA", "delay"], ["pulseA", "pulseB"], ["delay", "pulseA"],
-                   ["pulseA", "target", "pulseA"], ["pulseA", "target"], ["pulseA", "delay", "delay"]]
+                   ["pulseA", "delay", "target", "pulseA"], ["pulseA", "delay", "target"], ["pulseA", "delay", "delay"]]
     if not quick:
-        other_lists += [["pulseA", "target", "pulseB", "delay"], ["pulseA", "pulseB", "delay"],
-                        ["pulseA", "target", "delay"], ["delay", "delay", "pulseA"]]
+        other_lists += [["pulseA", "delay", "target", "pulseB", "delay"], ["pulseA", "pulseB", "delay"],
+                        ["pulseA", "delay", "target", "delay"], ["delay", "delay", "pulseA"],
+                        ["pulseA", "delay", "target", "pulseA", "delay", "target"]]
     own_lists = [[], ["pulseA"], ["delay"]] if quick else [[], ["pulseA"], ["delay"], ["pulseB", "delay"]]
     for clock in ([1, 4] if quick else [1, 2, 4, 8]):
         for oclock in ([1] if quick else [1, 4]):
